@@ -245,6 +245,8 @@ fn policy_family(name: &'static str) -> GenParams {
         pre_delegated: 2,
         hot_sender_pct: 40,
         reserve_shape: true,
+        refunder_contract: true,
+        invalid_pct: 10,
         ..GenParams::default()
     }
 }
